@@ -106,6 +106,25 @@ func c17(c *an.Ctx) {
 			ws := f.Find(call(r, RL+":FileWrapper.WriteSlice"))
 			wa := f.Find(call(r, RL+":FileWrapper.WriteAt"))
 			rot := f.Find(call(r, RL+":entryLog.rotate"))
+			// conflict handling: the slot table is zeroed from the slot of the first conflicting index, and the byte offset agrees with that slot
+			clr := ws.Filter("clearing slots (clearSlots=true)", func(s an.Site) bool {
+				ce := s.Node.(*ast.CallExpr)
+				return len(ce.Args) == 6 && an.IsBoolLit(f.Info, ce.Args[5], true)
+			})
+			r.AddSites(clr.Len())
+			if clr.Len() < 2 && !r.Failed() {
+				r.Fail(f.Name+": conflict zeroing", c.P.Pos(f.Body.Pos()), "expected the current-file and the previous-file conflict branches to zero the slot table, found %d clearing writes", clr.Len())
+			}
+			for _, s := range clr.List {
+				ce := s.Node.(*ast.CallExpr)
+				slot, off := f.Canon(ce.Args[0]), f.Canon(ce.Args[2])
+				if slot != "recv.slotGe(p0[0].Index)#1" {
+					r.Fail(f.Name+": conflict zeroing start", c.P.Pos(ce.Pos()), "slots are zeroed from %s, not from the slot of the first conflicting index (slotGe(entries[0].Index))", slot)
+				}
+				if off != "int64((raftlog.entrySize*"+slot+"))" && off != "int64(("+slot+"*raftlog.entrySize))" {
+					r.Fail(f.Name+": conflict zeroing offset", c.P.Pos(ce.Pos()), "the byte offset %s of the zeroing write does not correspond to its start slot %s (entrySize*slot): stale slots of the discarded suffix would survive", off, slot)
+				}
+			}
 			if !r.Failed() && wa.Len() > 0 {
 				start := f.LoopBodyEntry(wa.List[0])
 				payload := ws.Filter("of the entry payload (inside the per-entry loop)", func(s an.Site) bool { return f.LoopBodyEntry(s) == start && start >= 0 })
